@@ -21,6 +21,7 @@ from ufl.classes import (
     Index,
     Label,
     MultiIndex,
+    Zero,
 )
 from ufl.core.ufl_type import UFLObject
 from ufl.corealg.traversal import traverse_unique_terminals, unique_post_traversal
@@ -60,6 +61,18 @@ def compute_terminal_hashdata(expressions, renumbering):
                 # Indices need a canonical numbering for a stable
                 # signature, thus this algorithm
                 data = compute_multiindex_hashdata(expr, index_numbering)
+
+            elif isinstance(expr, Zero) and expr.ufl_free_indices:
+                # A Zero can carry free indices (stored as Index
+                # counts), these must be renumbered like the indices
+                # of a MultiIndex
+                free_indices = tuple(Index(count) for count in expr.ufl_free_indices)
+                data = (
+                    "Zero",
+                    expr.ufl_shape,
+                    compute_multiindex_hashdata(free_indices, index_numbering),
+                    expr.ufl_index_dimensions,
+                )
 
             elif isinstance(expr, ConstantValue):
                 data = expr._ufl_signature_data_(renumbering)
